@@ -438,8 +438,11 @@ func genOrder(rng *rand.Rand) []mord {
 		return []mord{{col: c1, desc: d}, {col: c2, desc: d}}
 	case x < 18:
 		return []mord{{col: pick(rng, []string{"a", "b"}), desc: rng.Intn(2) == 0}, {col: "id", desc: rng.Intn(2) == 0}}
-	default:
+	case x < 19:
 		return []mord{{col: pick(rng, []string{"a", "b"}), desc: rng.Intn(2) == 0, nulls: 1 + rng.Intn(2)}}
+	default: // total order with an explicit NULL placement (LIMIT/OFFSET windows are generated over it)
+		d := rng.Intn(2) == 0
+		return []mord{{col: pick(rng, []string{"a", "b"}), desc: d, nulls: 1 + rng.Intn(2)}, {col: "id", desc: d}}
 	}
 }
 
@@ -915,7 +918,8 @@ func (o *runObs) coq(tableID uint32, dict *rowDict) string {
 
 // oracle: what the property statement demands of the rows of q over the table `rows`
 // returns "" when fine, else a description; known=true when the only defect is the NULL
-// placement of an index-served ORDER BY ... NULLS FIRST/LAST (known finding)
+// placement of an index-served ORDER BY ... NULLS FIRST/LAST (the defect fixed by f375c29: reported
+// under its own tag, which no known finding matches any more, so a recurrence is a VIOLATION)
 func oracleCheck(q *mquery, rows []mrow, o *runObs) (msg string, known bool) {
 	var want []mrow
 	for _, r := range rows {
@@ -967,7 +971,7 @@ func oracleCheck(q *mquery, rows []mrow, o *runObs) (msg string, known bool) {
 		}
 		return "", false
 	}
-	if q.totalOrder() && !q.nonDefaultNulls() {
+	if q.totalOrder() {
 		w := append([]mrow{}, want...)
 		os := q.ordSpecs()
 		wa := toAny(w)
@@ -1221,7 +1225,7 @@ func genModelled(r *vk.Run, ds int) error {
 			return
 		}
 		ra, rb := mrowsRender(a.mrows), mrowsRender(b.mrows)
-		if (a.q.limit > 0 || a.q.offset > 0) && !(a.q.totalOrder() && !a.q.nonDefaultNulls()) {
+		if (a.q.limit > 0 || a.q.offset > 0) && !(a.q.totalOrder()) {
 			// a LIMIT/OFFSET window without a total order may legitimately hold different rows
 			if len(ra) != len(rb) {
 				r.Finding(fmt.Sprintf("state-divergence: window sizes %d (%s) and %d: %s", len(ra), sa, len(rb), desc(b, sb)))
@@ -1229,7 +1233,7 @@ func genModelled(r *vk.Run, ds int) error {
 			return
 		}
 		same := sameMultiset(ra, rb)
-		if same && a.q.totalOrder() && !a.q.nonDefaultNulls() {
+		if same && a.q.totalOrder() {
 			same = sameSeq(ra, rb)
 		}
 		if !same {
